@@ -191,6 +191,64 @@ def bystander_checks(run: core.Run) -> None:
                           f"no node reads (numpy arrays, NaN, a generator, an object whose == raises, mixed-key mappings, a lone surrogate)", {"nodes": nodes})
 
 
+def environment_probe(run: core.Run) -> None:
+    """C01 quantifies over configurations and payloads, not over the process environment.  Fixed pipelines with hand-computed
+    outcomes (parameter precedence, a template whose text a shell would expand, an unknown parameter that must be rejected, a
+    missing parameter, a type gate) are run once while every environment lookup is recorded; each SEMANTIVA_* name that was
+    asked for (observed, not guessed) is then set to a few plausible values and the outcomes must not change."""
+    from .. import envprobe, seams
+    seams.setup()
+    from ..seams import run_nodes
+
+    cases = [
+        ([{"processor": "FloatValueDataSource", "parameters": {"value": 3.0}}, {"processor": "FloatMultiplyOperationWithDefault"}], {"factor": 4.0}, ("ok", 12.0)),
+        ([{"processor": "FloatValueDataSource", "parameters": {"value": 3.0}}, {"processor": "FloatMultiplyOperation", "parameters": {"factor": 2.0, "facto": 5.0}}], {}, ("construct",)),
+        ([{"processor": "FloatValueDataSource", "parameters": {"value": 3.0}}, {"processor": "FloatMultiplyOperation"}], {}, ("raises", 1)),
+        ([{"processor": "FloatValueDataSource", "parameters": {"value": 3.0}}, {"processor": "FloatCollectionSumOperation"}], {}, ("raises", 1)),
+        ([{"processor": "FloatValueDataSource", "parameters": {"value": 3.0}}, {"processor": 'template:"~/$HOME/$USER/r_{tag}.txt":path'}], {"tag": "$HOME"}, ("ctx", "path", "~/$HOME/$USER/r_$HOME.txt")),
+        ([{"processor": "FloatValueDataSource", "derive": {"parameter_sweep": {"parameters": {"value": "2 * t"}, "variables": {"t": {"values": [1.0, 2.0, 3.0]}},
+                                                                                "collection": "FloatDataCollection"}}},
+          {"processor": "slice:FloatMultiplyOperationWithDefault:FloatDataCollection"}, {"processor": "FloatCollectionSumOperation"}], {}, ("ok", 24.0)),
+    ]
+
+    def observe(i):
+        nodes, ctx, want = cases[i]
+        o = run_nodes(copy.deepcopy(nodes), None, dict(ctx))
+        if want[0] == "construct":
+            return None if (o["construct_error"] or (o["raised"] and o.get("started", 0) == 0)) else f"an unknown parameter was accepted: {o.get('final')}"
+        if o["construct_error"]:
+            return f"rejected: {o['construct_error']}"
+        if want[0] == "raises":
+            return None if o["raised"] and o["started"] == want[1] + 1 else f"expected node {want[1] + 1} to raise; got {o['raised'] or o['final']} (started {o['started']})"
+        if o["raised"]:
+            return f"raised {o['raised']}"
+        if want[0] == "ok":
+            return None if o["final"][0][1] == want[1] else f"data {o['final'][0]} (expected {want[1]})"
+        return None if o["final"][1].get(want[1]) == want[2] else f"context[{want[1]}] = {o['final'][1].get(want[1])!r} (expected {want[2]!r})"
+    for i in range(len(cases)):
+        base = observe(i)
+        if base:
+            run.violation(f"fixed-pipeline:{i}", f"{cases[i][0]} in the default environment: {base}", {"nodes": cases[i][0]})
+            return
+    names = envprobe.discover(lambda: [observe(i) for i in range(len(cases))])
+    run.extra["environment_variables_consulted"] = names
+    for assign in envprobe.settings(names):
+        with envprobe.with_env(assign):
+            for i in range(len(cases)):
+                run.evaluations += 1
+                bad = observe(i)
+                if bad:
+                    run.violation(f"environment:{next(iter(assign))}:{cases[i][2][0]}", f"with {assign} in the process environment, {cases[i][0]}: {bad}",
+                                  {"env": assign, "nodes": cases[i][0]})
+    # HOME / USER pointing somewhere else must not matter either (no lookup of them is legitimate on this path)
+    with envprobe.with_env({"HOME": "/nonexistent/elsewhere", "USER": "someone-else"}):
+        for i in range(len(cases)):
+            run.evaluations += 1
+            bad = observe(i)
+            if bad:
+                run.violation(f"environment:HOME:{cases[i][2][0]}", f"with HOME / USER changed, {cases[i][0]}: {bad}", {"nodes": cases[i][0]})
+
+
 def magnitude_checks(run: core.Run) -> None:
     """The model's values are small integers; the node semantics do not depend on magnitude.  The same hand-computed
     pipelines are run with values across the float range (exponent notation on both sides, subnormal, -0.0, integers
@@ -266,5 +324,6 @@ def check(tier: str) -> int:
     from . import c01_trace
     c01_trace.validate(run, tier)
     bystander_checks(run)
+    environment_probe(run)
     magnitude_checks(run)
     return run.finish()
